@@ -33,13 +33,17 @@ structure Under where
   endErr      : RErr
 deriving Repr, DecidableEq
 
+/-- how many bytes the next underlying Read may return into a buffer of `k` bytes -/
+def chunk (script : List Nat) (k : Nat) : Nat :=
+  match script with
+  | [] => k
+  | c :: _ => min k c
+
 /-- one `l.r.Read(p)` with `len(p) = k` -/
 def Under.read (u : Under) (k : Nat) : Bytes × Option RErr × Under :=
   if u.data.isEmpty then ([], some u.endErr, u)
   else
-    let m := match u.script with
-      | [] => k
-      | c :: _ => min k c
+    let m := chunk u.script k
     let out := u.data.take m
     let rest := u.data.drop m
     let u' := { u with data := rest, script := u.script.tail }
@@ -243,5 +247,15 @@ def proxyStatus (t : Trace) : Nat :=
   match firstErr t with
   | some .tooLarge => 413
   | _ => 0
+
+/-- a request body as net/http hands it over: no chunk bound, EOF after the last byte -/
+def wireBody (data : Bytes) : Under := { data := data, script := [], errWithLast := false, endErr := .eof }
+
+/-- limits + proxy for a request whose body is `data` (Content-Length framing unless `chunked`):
+`createUpstreamRequest` drops the body of a request with Content-Length 0; otherwise the
+transport drains it with 32 KiB reads until the first error. -/
+def proxyServe (cs : Bool) (t : Table) (p : Bytes) (data : Bytes) (chunked : Bool) : Nat :=
+  if !chunked && data.isEmpty then 0
+  else proxyStatus (serveBody cs t p (wireBody data) (List.replicate (data.length + 2) 32768))
 
 end Casket.Limits
